@@ -70,6 +70,13 @@ var props = map[string]prop{
 		"reach.resolved.proof.era3", "reach.resolved.expire.era3", "reach.resolved.v2proof", "reach.resolved.v2expire", "reach.resolved.renewal", "probe.K3-v1-honest-era3.offered", "probe.K3-v1-honest-era2.offered", "probe.K3-v1-honest-era1.offered", "probe.K7-v2-honest.offered", "probe.K3-v1-other-file.offered", "probe.K7-v2-index-other-height.offered", "probe.K5-total-plus-1.offered", "probe.K6-final-plus-1.offered", "probe.K2-valid-sum-plus-1.offered", "probe.payout-checked", "fault.host-crash"),
 	"C08": e1prop("C08", 240, 6000, e1Case+"probe profile: for each height/time rule the adversary builds the transaction that is valid except for the rule and advances a private fork of a reachable state with empty blocks so that it is offered in the block at bound-1 (must be rejected) and at bound (must be accepted); after(t) is driven to median == t (reject) and t+1s (accept) with chosen timestamps.",
 		"probe.T3-maturity-early.offered", "probe.T3-maturity-at-bound.offered", "probe.T2-v1-timelock-early.offered", "probe.T2-v2-uc-timelock-at-bound.offered", "probe.P1-above-early.offered", "probe.P1-above-at-bound.offered", "probe.P1-after-at-T.offered", "probe.P1-after-T-plus-1.offered", "probe.T1-v1-after-require-at-bound.offered", "probe.T1-v2-before-allow-early.offered"),
+	"C13": {
+		Parts: []part{{Engine: "E1h", Pkg: "world", Profile: "C13", QuickRuns: 400, QuickBudgetS: 40, ThoroughRuns: 12000, ThoroughBudgetS: 900}},
+		Rule:  "one case = one seeded header chain of 300-3000 blocks under swarm-drawn network parameters (Oak before/at/after multiples of 500, fix height, ASIC reset values, nonce factor, v2 allow/require/final-cut heights incl. v2 from height 1, block interval 10 ms ... 1 h, initial difficulty 1-256) and one of five timestamp behaviours (honest, constant = always the median, decreasing-within-rule, far future, mixed); every block is applied both as header only and as full block. Per header: no panic; retarget inside the era's clamp in exact rationals; total work monotone (strict from v2); target/difficulty floored inverses; header-only state = full state on all proof-of-work fields; ValidateHeader accepts the honest header and refuses each single defect (parent, median-1s, nonce factor, work) while accepting the median itself; SufficientlyHeavierThan asymmetric over sampled state pairs. Non-trivial = more than 50 headers applied; distinct = distinct event-log hashes.",
+		Assumptions: []string{"proof of work is really performed, so runs stop when difficulty exceeds 4096", "targets of 2^255 and above saturate to the maximum target in the library (difficulty < 2); the clamp oracle accepts that saturation (DESIGN Appendix F)", "sampling, not enumeration"},
+		Components:  e1Components,
+		ExpectCounters: []string{"hdr.era.preoak", "hdr.era.oak", "hdr.era.v2", "hdr.era.finalcut", "probe.B3-wrong-parent", "probe.B3-timestamp-median-minus-1s", "probe.B3-timestamp-at-median", "probe.B3-nonce-factor", "probe.B3-insufficient-work", "hdr.heavier-pairs"},
+	},
 	"C01": {
 		Parts:       []part{e1("C01", 240, 6000)},
 		Rule:        "one case = one seeded run of a 2-4 node Sia network (swarm-drawn network parameters, eras, fault kinds, workload mix); after every applied and every reverted block at every node the reference ledger (math/big, fed by block contents) is compared with the store built from the library's diffs, and the supply equation, miner payout, siafund count and claim amounts are checked. Non-trivial = the run applied blocks with transactions and the oracle ran; distinct = distinct SHA-256 of the event log.",
